@@ -131,7 +131,7 @@ def run_property(prop, tier, seed, rebaseline=False, only_unit=None):
         tagmap = {}
         for f in u.fns:
             tagmap.setdefault(f["name"], set()).update(f["tags"] or [prop])
-        mine = lambda fn: (prop in tagmap.get(fn.split("::")[-1], {prop}))
+        mine = (lambda fn: True) if reg.get("ignore_tags") else (lambda fn: (prop in tagmap.get(fn.split("::")[-1], {prop})))
         for o in u.obligations:
             if not mine(o["fn"]):
                 continue
@@ -155,7 +155,8 @@ def run_property(prop, tier, seed, rebaseline=False, only_unit=None):
         cls = reg.get("classes")
         xt = reg.get("exclude_text")
         it = reg.get("include_text")
-        fails = [f for f in u.failures if mine(f["fn"]) and (not cls or re.search(cls, f["message"]))
+        clst = reg.get("classes_text")
+        fails = [f for f in u.failures if mine(f["fn"]) and (not cls or re.search(cls, f["message"]) or (clst and re.search(clst, f["message"] + " :: " + f["text"] + " :: " + f["src"])))
                  and not (xt and re.search(xt, f["text"] + " :: " + f["src"]))
                  and (not it or re.search(it, f["text"] + " :: " + f["src"]))]
         foreign += len([f for f in u.failures if mine(f["fn"])]) - len(fails)
